@@ -22,7 +22,7 @@ REPO = os.environ.get("PYVC_REPO", "/repo")
 SRC = os.path.join(REPO, "src")
 
 DROPPED = [
-    "docstrings", "type annotations", "logger.* calls (no-ops)",
+    "docstrings", "type annotations", "logger.* calls (no-ops)", "for loops whose body consists only of logger calls (the iterable is still evaluated)",
     "decorators other than property/dataclass/staticmethod (@parallelize => A4)",
     "float literals -> exact decimals (A1)", "exception message texts (class kept)",
     "module-level statements other than the definitions and pure constant assignments a function refers to",
@@ -340,6 +340,10 @@ class Xform(ast.NodeTransformer):
         self.info.loops = self.loop_no
         if k not in self.inv_loops:
             self.generic_visit(n)
+            if not n.orelse and n.body and all(isinstance(b, ast.Pass) for b in n.body):
+                # the body consisted of dropped statements only (logger calls): the loop has no effect but the
+                # evaluation of its iterable; keep that, so a symbolic length needs no invariant
+                return ast.copy_location(ast.Expr(n.iter), n)
             return n
         if n.orelse or _has_loop_escape(n.body):
             raise Undecided("loop %d of %s: break/continue/return/else with an invariant" %
